@@ -117,9 +117,13 @@ type attempt struct {
 	onState func(*attemptState)
 	// afterReturn is called right after Stream returned, before the master's side
 	// of the connection is released (C05 observes the close from there).
-	afterReturn func(*attemptState)
-	fallback    time.Duration // how long to wait before the harness cancels on its own (default 20s)
-	noEOF  bool                 // do not append the EOF packet (the check ends the stream some other way)
+	afterReturn    func(*attemptState)
+	fallbackCancel context.CancelFunc // cancels ctx when the caller owns it and the stall fallback fires
+	fallback       time.Duration      // how long to wait before the harness cancels on its own (default 20s)
+	// onStall is called when Stream has not returned within the fallback time, before the
+	// harness cancels anything (C05 takes its blocked-state proof there).
+	onStall func(*attemptState)
+	noEOF   bool // do not append the EOF packet (the check ends the stream some other way)
 }
 
 // attemptState is what the harness observed during one attempt.
@@ -146,6 +150,8 @@ type attemptState struct {
 }
 
 func (a *attemptState) dump() (fakemaster.Command, bool) {
+	a.mu.Lock()
+	defer a.mu.Unlock()
 	if a.dumpReq == nil {
 		return fakemaster.Command{}, false
 	}
@@ -233,12 +239,16 @@ type session struct {
 }
 
 func newSession(tables []hist.Table, serverID uint32, start hist.Pos) (*session, error) {
+	return newSessionNet(tables, serverID, start, "tcp")
+}
+
+func newSessionNet(tables []hist.Table, serverID uint32, start hist.Pos, network string) (*session, error) {
 	m, err := fakemaster.New()
 	if err != nil {
 		return nil, err
 	}
 	mp := newMapper(tables)
-	s, err := gobinlog.NewStreamer(m.DSN(), serverID, mp)
+	s, err := gobinlog.NewStreamer(m.DSNNet(network), serverID, mp)
 	if err != nil {
 		m.Close()
 		return nil, err
@@ -264,14 +274,16 @@ func (ss *session) run(at attempt) *attemptState {
 	if plan.OnDump == nil {
 		plan.OnDump = func(req fakemaster.Command) []fakemaster.Step {
 			r := req
-			st.dumpReq = &r
 			steps, evIdx, ok := buildSteps(at.l, req, !at.noEOF)
-			st.served = ok
 			if at.mutate != nil && ok {
 				steps = at.mutate(steps, evIdx)
 			}
+			st.mu.Lock()
+			st.dumpReq = &r
+			st.served = ok
 			st.evIdx = evIdx
 			st.steps = len(steps)
+			st.mu.Unlock()
 			return steps
 		}
 	}
@@ -291,10 +303,14 @@ func (ss *session) run(at attempt) *attemptState {
 	var cancel context.CancelFunc
 	if ctx == nil {
 		ctx, cancel = context.WithCancel(context.Background())
+		defer cancel() // hygiene only; a caller that wants to observe what is left behind passes its own context
 	} else {
-		ctx, cancel = context.WithCancel(ctx)
+		// the caller owns the context: it is never cancelled behind its back (except by the stall fallback)
+		cancel = func() {}
+		if at.fallbackCancel != nil {
+			cancel = at.fallbackCancel
+		}
 	}
-	defer cancel()
 	handler := func(tx *gobinlog.Transaction) error {
 		n := atomic.AddInt32(&st.inHandler, 1)
 		for {
@@ -343,6 +359,9 @@ func (ss *session) run(at attempt) *attemptState {
 	case <-st.streamDone:
 	case <-time.After(fb):
 		st.fellBack = true
+		if at.onStall != nil {
+			at.onStall(st)
+		}
 		cancel()
 		plan.Release()
 		select {
@@ -354,9 +373,11 @@ func (ss *session) run(at attempt) *attemptState {
 		at.afterReturn(st)
 	}
 	plan.Release()
-	select {
-	case <-plan.Finished:
-	case <-time.After(10 * time.Second):
+	if plan.Accepted() {
+		select {
+		case <-plan.Finished:
+		case <-time.After(10 * time.Second):
+		}
 	}
 	return st
 }
